@@ -32,8 +32,8 @@ RULE = (
 TOLERANCES = {"everything": "bitwise / exact equality (OpenCV's RNG re-seeded before each colour-correction evaluation)"}
 ASSUMPTIONS = ["files are written to a per-run temporary directory that is removed afterwards", "lossless formats: PNG (8 bit) and TIFF (16 bit), as documented in OpticalImage.write"]
 FLOORS = {
-    "quick": {"npz_roundtrip": 250, "bytes_roundtrip": 150, "optical_write_read": 60, "correction_roundtrip": 150, "estimator_regions_compared": 100, "correction_path_reused": 200, "caller_config_edited_after_construction": 40, "curvature_crop_points_typed": 6},
-    "thorough": {"npz_roundtrip": 3000, "bytes_roundtrip": 1800, "optical_write_read": 700, "correction_roundtrip": 1700, "estimator_regions_compared": 1000, "correction_path_reused": 2000, "caller_config_edited_after_construction": 400, "curvature_crop_points_typed": 60},
+    "quick": {"npz_roundtrip": 250, "bytes_roundtrip": 150, "optical_write_read": 60, "correction_roundtrip": 150, "estimator_regions_compared": 100, "correction_path_reused": 200, "caller_config_edited_after_construction": 40, "curvature_crop_points_typed": 6, "curvature_resize_factor": 20},
+    "thorough": {"npz_roundtrip": 3000, "bytes_roundtrip": 1800, "optical_write_read": 700, "correction_roundtrip": 1700, "estimator_regions_compared": 1000, "correction_path_reused": 2000, "caller_config_edited_after_construction": 400, "curvature_crop_points_typed": 60, "curvature_resize_factor": 200},
 }
 SHARD_TIMEOUT = {"quick": 1500, "thorough": 7200}
 
@@ -299,6 +299,15 @@ def run_shard(spec, R):
             cur = darsia.CurvatureCorrection(config=cfg)
             x = rng.random(shape + (3,)).astype(np.float32)
             roundtrip("curvature_unused", cur, [x, darsia.OpticalImage(x.copy(), dimensions=[1.0, 1.0], color_space="RGB")], {"config": "bulge/stretch" + ("/crop" if n % 2 else "")})
+            # a correction set up for images at another resolution (resize_factor), saved before and after first use
+            import copy as _copy
+
+            rf = float(rng.choice([0.5, 2.0]))
+            xr = rng.random((max(4, int(shape[0] * rf)), max(4, int(shape[1] * rf)), 3)).astype(np.float32)
+            ok_rf, cur_rf = R.guarded("construct:curvature", lambda: darsia.CurvatureCorrection(config=_copy.deepcopy(cfg), resize_factor=rf))
+            if ok_rf:
+                roundtrip("curvature_resize_factor", cur_rf, [xr, darsia.OpticalImage(xr.copy(), dimensions=[1.0, 1.0], color_space="RGB")], {"config": "bulge/stretch" + ("/crop" if n % 2 else ""), "resize_factor": rf})
+                R.count("curvature_resize_factor")
             cur2 = darsia.CurvatureCorrection(config=cfg)
             cur2(x.copy())  # populate the cache before saving
             roundtrip("curvature_used", cur2, [x, darsia.OpticalImage(x.copy(), dimensions=[1.0, 1.0], color_space="RGB")], {"config": "bulge/stretch" + ("/crop" if n % 2 else ""), "cache": True})
